@@ -213,7 +213,7 @@ def _worker(task):
     try:
         if layer == 3:
             r = c06_lit.run_case(eng, task['op'], task['kind'], task['a1'], task['a2'], task['n1'], task['n2'], frac=task.get('frac', False),
-                                 reach_twin=task.get('reach', False), spec_override=task.get('spec'), shard=task.get('shard'))
+                                 reach_twin=task.get('reach', False), spec_override=task.get('spec'), shard=task.get('shard'), kinds_only=task.get('kinds_only', False))
             for st, model, info, why in r['sat'][:5]:
                 item = {'why': why, 'decisions': ''.join(map(str, st.decisions))}
                 if model is not None:
@@ -291,6 +291,16 @@ def lit_tasks(tier):
                 tasks.append({'layer': 3, 'op': 'complement', 'kind': kind, 'a1': a1, 'a2': True, 'n1': n1, 'n2': 0})
     for op in ('union', 'intersect', 'diff', 'complement'):
         tasks.append({'layer': 3, 'op': op, 'kind': 'Boolean', 'a1': True, 'a2': True, 'n1': 0, 'n2': 0})
+        # the diagram-backed tags: opaque diagrams, BDD operations by contract; obligation = tag and table of the result
+        for kind in ('Mapping', 'List', 'Map', 'Set'):
+            tasks.append({'layer': 3, 'op': op, 'kind': kind, 'a1': True, 'a2': True, 'n1': 0, 'n2': 0})
+    # VoidUndefined: shape of the result only (see c06_lit.run_case)
+    for op in ('union', 'intersect', 'diff'):
+        for a1 in (True, False):
+            for a2 in (True, False):
+                for n1 in (1, 2):
+                    for n2 in (1, 2):
+                        tasks.append({'layer': 3, 'op': op, 'kind': 'VoidUndefined', 'a1': a1, 'a2': a2, 'n1': n1, 'n2': n2, 'kinds_only': True})
     if tier != 'quick':
         for op in ('union', 'intersect', 'diff'):
             for a1 in (True, False):
